@@ -54,6 +54,16 @@ Proof.
   destruct (m_kind m); try discriminate; simpl; now rewrite andb_false_r.
 Qed.
 
+Lemma terminal_answer_key : forall rid m, is_terminal rid m = true -> answer_key rid m = true.
+Proof.
+  intros rid m H. unfold answer_key. rewrite (terminal_same_key _ _ H). apply terminal_kind in H.
+  destruct (m_kind m); try discriminate; reflexivity.
+Qed.
+
+(** with [c_answers_only] the transport's test is exactly the specification's *)
+Lemma resolves_answer_key : forall c i m, c_answers_only c = true -> resolves c i m = answer_key i m.
+Proof. intros c i m H. unfold resolves, answer_key. now rewrite H. Qed.
+
 Lemma count_app : forall rid a b, count_terminals rid (a ++ b) = (count_terminals rid a + count_terminals rid b)%nat.
 Proof. intros. unfold count_terminals. rewrite filter_app, app_length. auto. Qed.
 
@@ -272,7 +282,7 @@ Qed.
     [allow = false] is exactly the property's environment [sched_ok]. *)
 Definition late_step_g (allow : bool) (rid : id) (s : late_state) (e : ev) : option late_state :=
   match e with
-  | ESse (Some m) => if same_key rid m && is_done (fst s) && negb allow then None else late_step rid s e
+  | ESse (Some m) => if answer_key rid m && is_done (fst s) && negb allow then None else late_step rid s e
   | _ => late_step rid s e
   end.
 
@@ -291,7 +301,7 @@ Proof. induction evs as [|e evs IH]; intros; simpl; auto. rewrite late_step_g_tr
 Lemma late_step_g_weaken : forall rid s e s', late_step_g false rid s e = Some s' -> late_step rid s e = Some s'.
 Proof.
   intros rid s e s'. unfold late_step_g. destruct e as [| | | |[m|]]; auto.
-  destruct (same_key rid m && is_done (fst s) && negb false); auto. discriminate.
+  destruct (answer_key rid m && is_done (fst s) && negb false); auto. discriminate.
 Qed.
 
 Lemma late_run_g_weaken : forall rid evs s x, late_run_g false rid s evs = Some x -> late_run rid s evs = Some x.
@@ -324,7 +334,7 @@ Proof.
   - unfold late_step_g, late_step. cbn [fst snd phase_step]. exists ans.
     destruct ph; inversion H; subst; simpl; auto.
   - unfold late_step_g, late_step. cbn [fst snd].
-    destruct (same_key rid m) eqn:Ek.
+    destruct (answer_key rid m) eqn:Ek.
     + destruct (is_terminal rid m) eqn:Et; try discriminate.
       destruct ph; try discriminate; simpl in Hu; subst ans; inversion H; subst; simpl; eexists; split; eauto; simpl; auto.
     + inversion H; subst. simpl. eauto.
@@ -426,30 +436,33 @@ Qed.
 (** A message that does not bear the request's key: never a terminal message
     for it, never touches the sender, never forgets the request's key. *)
 Lemma not_pending_other : forall c rid ss m,
-  same_key rid m = false ->
+  answer_key rid m = false ->
   s_task (fst (not_pending c ss m)) = s_task ss /\
   count_terminals rid (snd (not_pending c ss m)) = 0%nat /\
   has_key (key rid) (s_late (fst (not_pending c ss m))) = has_key (key rid) (s_late ss).
 Proof.
   intros c rid ss m Hk.
   assert (Hnt : is_terminal rid m = false).
-  { destruct (is_terminal rid m) eqn:Et; auto. apply terminal_same_key in Et. congruence. }
-  unfold not_pending. destruct (late_hit c (s_late ss) m); cbn [fst snd s_task s_late].
-  - split; auto. split; auto. unfold forget. unfold same_key in Hk. destruct (m_id m) as [i|]; auto.
-    apply has_key_drop_other. apply str_eqb_false_neq in Hk. congruence.
+  { destruct (is_terminal rid m) eqn:Et; auto. apply terminal_answer_key in Et. congruence. }
+  unfold not_pending. destruct (late_hit c (s_late ss) m) eqn:Eh; cbn [fst snd s_task s_late].
+  - unfold answer_key in Hk. apply andb_false_iff in Hk. destruct Hk as [Hk|Hk].
+    + split; auto. split; auto. unfold forget. unfold same_key in Hk. destruct (m_id m) as [i|]; auto.
+      apply has_key_drop_other. apply str_eqb_false_neq in Hk. congruence.
+    + exfalso. unfold late_hit in Eh. destruct (m_kind m); simpl in Hk; try discriminate;
+        cbn [kind_terminal] in Eh; rewrite andb_false_r in Eh; discriminate.
   - rewrite one_msg_count, Hnt. auto.
 Qed.
 
 Ltac fin := repeat split; eauto; try (intros; discriminate); try lia.
 
 Lemma step_sim : forall c rid allow,
-  c_keep_id c = true -> c_other_terminal c = true -> (allow = true -> c_drop_late c = true) ->
+  c_keep_id c = true -> c_other_terminal c = true -> (allow = true -> c_drop_late c = true) -> c_answers_only c = true ->
   forall s ss e s',
   rel c rid s ss -> late_step_g allow rid s e = Some s' ->
   rel c rid s' (fst (step c ss e)) /\
   (count_terminals rid (snd (step c ss e)) + owed c (fst s') = owed c (fst s))%nat.
 Proof.
-  intros c rid allow Hk Ho Ha [ph ans] [task late] e s' Hrel Hst.
+  intros c rid allow Hk Ho Ha Hao [ph ans] [task late] e s' Hrel Hst.
   unfold rel in Hrel. cbn [fst snd s_task s_late] in Hrel.
   destruct e as [cm|p| | |[m|]].
   - discriminate.
@@ -500,7 +513,7 @@ Proof.
     + destruct Hrel as [Ht Hl]. subst task. unfold rel. simpl. auto.
   - (* ESse (Some m) *)
     unfold late_step_g in Hst. cbn [fst snd] in Hst.
-    destruct (same_key rid m) eqn:Esk.
+    destruct (answer_key rid m) eqn:Esk.
     + (* the answer *)
       destruct (is_done ph && negb allow) eqn:Eda; [simpl in Hst; rewrite Eda in Hst; discriminate|].
       simpl in Hst. rewrite Eda in Hst. unfold late_step in Hst. cbn [fst snd] in Hst. rewrite Esk in Hst.
@@ -527,9 +540,9 @@ Proof.
       assert (G : fst (step c (SS task late) (ESse (Some m))) = fst (not_pending c (SS task late) m) /\
                   snd (step c (SS task late) (ESse (Some m))) = snd (not_pending c (SS task late) m)).
       { cbn [step s_task s_late]. destruct ph; cbn [fst] in Hrel.
-        - subst task. rewrite (resolves_not_key c _ _ Esk). auto.
+        - subst task. rewrite (resolves_answer_key c _ _ Hao), Esk. auto.
         - destruct Hrel as [_ [a [Ht _]]]. subst task. auto.
-        - subst task. rewrite (resolves_not_key c _ _ Esk). auto.
+        - subst task. rewrite (resolves_answer_key c _ _ Hao), Esk. auto.
         - destruct Hrel as [_ [a [Ht _]]]. subst task. auto.
         - destruct Hrel as [Ht _]. subst task. auto. }
       destruct G as [G1 G2]. rewrite G1, G2, N2. split; [|lia].
@@ -540,17 +553,17 @@ Proof.
 Qed.
 
 Lemma sim_gen : forall c rid allow,
-  c_keep_id c = true -> c_other_terminal c = true -> (allow = true -> c_drop_late c = true) ->
+  c_keep_id c = true -> c_other_terminal c = true -> (allow = true -> c_drop_late c = true) -> c_answers_only c = true ->
   forall evs s ss ans',
   rel c rid s ss ->
   late_run_g allow rid s evs = Some (PhDone, ans') ->
   count_terminals rid (run c ss evs) = owed c (fst s) /\ s_task (final c ss evs) = SIdle.
 Proof.
-  intros c rid allow Hk Ho Ha. induction evs as [|e evs IH]; intros s ss ans' Hrel Hrun.
+  intros c rid allow Hk Ho Ha Hao. induction evs as [|e evs IH]; intros s ss ans' Hrel Hrun.
   - simpl in *. inversion Hrun; subst. unfold rel in Hrel. simpl in Hrel. destruct Hrel. auto.
   - cbn [late_run_g] in Hrun. destruct (late_step_g allow rid s e) as [s'|] eqn:Est; try discriminate.
     cbn [run final]. rewrite count_app.
-    destruct (step_sim c rid allow Hk Ho Ha s ss e s' Hrel Est) as [G1 G2].
+    destruct (step_sim c rid allow Hk Ho Ha Hao s ss e s' Hrel Est) as [G1 G2].
     destruct (IH s' _ ans' G1 Hrun) as [I1 I2]. rewrite I1. split; auto.
 Qed.
 
@@ -562,16 +575,16 @@ Proof. intros. split; reflexivity. Qed.
 (** The property's environment: every member with [keep_id] and
     [other_terminal] — with or without the two proposed patches. *)
 Lemma one_terminal : forall c rid evs late,
-  c_keep_id c = true -> c_other_terminal c = true ->
+  c_keep_id c = true -> c_other_terminal c = true -> c_answers_only c = true ->
   sched_ok rid evs = true ->
   count_terminals rid (run c (SS SIdle late) (ESend (CReq rid) :: evs)) = 1%nat /\
   s_task (final c (SS SIdle late) (ESend (CReq rid) :: evs)) = SIdle.
 Proof.
-  intros c rid evs late Hk Ho H. unfold sched_ok in H.
+  intros c rid evs late Hk Ho Hao H. unfold sched_ok in H.
   destruct (phase_run rid PhPosted evs) as [[]|] eqn:E; try discriminate.
   destruct (strict_embeds rid evs PhPosted false eq_refl E) as [a' Ha'].
   destruct (first_step c rid late evs) as [R F]. rewrite R, F.
-  apply (sim_gen c rid false Hk Ho (fun H => False_ind _ (Bool.diff_false_true H)) evs (PhPosted, false) _ a'); auto.
+  apply (sim_gen c rid false Hk Ho (fun H => False_ind _ (Bool.diff_false_true H)) Hao evs (PhPosted, false) _ a'); auto.
   reflexivity.
 Qed.
 
@@ -583,13 +596,13 @@ Definition one_terminal_statement (c : cfg) : Prop :=
   s_task (final c (SS SIdle late) (ESend (CReq rid) :: evs)) = SIdle.
 
 Lemma one_terminal_full : forall c,
-  c_keep_id c = true -> c_other_terminal c = true -> c_drop_late c = true ->
+  c_keep_id c = true -> c_other_terminal c = true -> c_drop_late c = true -> c_answers_only c = true ->
   one_terminal_statement c.
 Proof.
-  intros c Hk Ho Hd rid evs late H. unfold sched_ok_late in H.
+  intros c Hk Ho Hd Hao rid evs late H. unfold sched_ok_late in H.
   destruct (late_run rid late_init evs) as [[[] a']|] eqn:E; try discriminate.
   destruct (first_step c rid late evs) as [R F]. rewrite R, F.
-  apply (sim_gen c rid true Hk Ho (fun _ => Hd) evs late_init _ a'); auto.
+  apply (sim_gen c rid true Hk Ho (fun _ => Hd) Hao evs late_init _ a'); auto.
   - reflexivity.
   - rewrite late_run_g_true. auto.
 Qed.
@@ -599,7 +612,7 @@ Qed.
 Definition noise (rid : id) (l : list ev) : Prop :=
   forall e, In e l -> match e with
                       | ESse None => True
-                      | ESse (Some m) => same_key rid m = false
+                      | ESse (Some m) => answer_key rid m = false
                       | _ => False
                       end.
 
@@ -622,7 +635,7 @@ Lemma modes_accepted : forall rid a n1 n2 n3 code b,
   sched_ok rid (n1 ++ EPost PExc :: n2) = true.                                              (* exception *)
 Proof.
   intros rid a n1 n2 n3 code b Ha H1 H2 H3 Hc1 Hc2 Hb.
-  assert (Hs := terminal_same_key _ _ Ha).
+  assert (Hs := terminal_answer_key _ _ Ha).
   assert (E200 : code =? 200 = false) by lia. assert (E202 : code =? 202 = false) by lia.
   unfold sched_ok.
   repeat split.
@@ -657,7 +670,7 @@ Lemma late_modes_accepted : forall rid a n1 n2 n3,
   sched_ok_late rid (n1 ++ EPost (PStatus 500 BNotJson) :: n2 ++ [ESse (Some a)]) = true.
 Proof.
   intros rid a n1 n2 n3 Ha H1 H2 H3.
-  assert (Hs := terminal_same_key _ _ Ha).
+  assert (Hs := terminal_answer_key _ _ Ha).
   unfold sched_ok_late, late_init. repeat split.
   - rewrite noise_late_run by auto. simpl. rewrite noise_late_run by auto. simpl.
     rewrite noise_late_run by auto. simpl. unfold late_step. simpl. rewrite Hs, Ha. auto.
@@ -895,17 +908,17 @@ Proof.
 Qed.
 
 Lemma step_due : forall c rid,
-  c_other_terminal c = true -> c_keep_id c = true -> c_drop_late c = true -> c_route_in_stream c = true ->
+  c_other_terminal c = true -> c_keep_id c = true -> c_drop_late c = true -> c_route_in_stream c = true -> c_answers_only c = true ->
   forall s ss e s',
   rel c rid s ss -> only_key rid (s_late ss) -> late_step rid s e = Some s' ->
   only_key rid (s_late (fst (step c ss e))) /\
   stream_part (snd (step c ss e)) =
     match e with
-    | ESse (Some m) => if same_key rid m && is_done (fst s) then [] else [m]
+    | ESse (Some m) => if answer_key rid m && is_done (fst s) then [] else [m]
     | _ => []
     end.
 Proof.
-  intros c rid Ho Hk Hd Hb [ph ans] [task late] e s' Hrel Hl Hst.
+  intros c rid Ho Hk Hd Hb Hao [ph ans] [task late] e s' Hrel Hl Hst.
   unfold rel in Hrel. cbn [fst snd s_task s_late] in *.
   destruct e as [cm|p| | |[m|]].
   - discriminate.
@@ -932,7 +945,7 @@ Proof.
     + destruct Hrel as [_ [a [Ht _]]]. subst task. rewrite Hb. auto.
     + destruct Hrel as [Ht _]. subst task. auto.
   - unfold late_step in Hst. cbn [fst snd] in Hst.
-    destruct (same_key rid m) eqn:Esk.
+    destruct (answer_key rid m) eqn:Esk.
     + destruct (is_terminal rid m) eqn:Et; [|discriminate]. destruct ans; [discriminate|]. simpl in Hst.
       cbn [step s_task s_late].
       destruct ph; try discriminate; cbn [fst] in Hrel; cbn [andb is_done].
@@ -947,14 +960,20 @@ Proof.
         unfold forget. destruct (m_id m); auto. apply only_key_drop. auto.
     + cbn [andb].
       assert (Hmiss : late_hit c late m = false).
-      { destruct (late_hit c late m) eqn:E; auto. apply late_hit_key in E. destruct E as [k [Hkk Hm]].
-        apply Hl in Hkk. subst k. unfold msg_has_key in Hm. unfold same_key in Esk. congruence. }
+      { destruct (late_hit c late m) eqn:E; auto.
+        assert (Ekt : kind_terminal (m_kind m) = true).
+        { unfold late_hit in E. destruct (kind_terminal (m_kind m)); auto. rewrite andb_false_r in E. simpl in E. discriminate. }
+        apply late_hit_key in E. destruct E as [k [Hkk Hm]].
+        apply Hl in Hkk. subst k. unfold msg_has_key in Hm.
+        unfold answer_key in Esk. apply andb_false_iff in Esk. destruct Esk as [Esk|Esk].
+        - unfold same_key in Esk. congruence.
+        - destruct (m_kind m); simpl in *; discriminate. }
       assert (G : step c (SS task late) (ESse (Some m)) = (SS task late, [(FromSse, m)])).
       { cbn [step s_task s_late]. unfold not_pending. cbn [s_late]. rewrite Hmiss.
         destruct ph; cbn [fst] in Hrel.
-        - subst task. rewrite (resolves_not_key c _ _ Esk). auto.
+        - subst task. rewrite (resolves_answer_key c _ _ Hao), Esk. auto.
         - destruct Hrel as [_ [a [Ht _]]]. subst task. auto.
-        - subst task. rewrite (resolves_not_key c _ _ Esk). auto.
+        - subst task. rewrite (resolves_answer_key c _ _ Hao), Esk. auto.
         - destruct Hrel as [_ [a [Ht _]]]. subst task. auto.
         - destruct Hrel as [Ht _]. subst task. auto. }
       rewrite G. auto.
@@ -962,18 +981,18 @@ Proof.
 Qed.
 
 Lemma due_gen : forall c rid,
-  c_other_terminal c = true -> c_keep_id c = true -> c_drop_late c = true -> c_route_in_stream c = true ->
+  c_other_terminal c = true -> c_keep_id c = true -> c_drop_late c = true -> c_route_in_stream c = true -> c_answers_only c = true ->
   forall evs s ss s_end,
   rel c rid s ss -> only_key rid (s_late ss) -> late_run rid s evs = Some s_end ->
   stream_part (run c ss evs) = stream_due rid s evs.
 Proof.
-  intros c rid Ho Hk Hd Hb. induction evs as [|e evs IH]; intros s ss s_end Hrel Hl Hrun; auto.
+  intros c rid Ho Hk Hd Hb Hao. induction evs as [|e evs IH]; intros s ss s_end Hrel Hl Hrun; auto.
   cbn [late_run] in Hrun. destruct (late_step rid s e) as [s'|] eqn:Est; try discriminate.
   cbn [run stream_due]. rewrite Est, stream_part_app.
-  destruct (step_due c rid Ho Hk Hd Hb s ss e s' Hrel Hl Est) as [L1 L2].
+  destruct (step_due c rid Ho Hk Hd Hb Hao s ss e s' Hrel Hl Est) as [L1 L2].
   assert (Ha : true = true -> c_drop_late c = true) by auto.
   rewrite <- late_step_g_true in Est.
-  destruct (step_sim c rid true Hk Ho Ha s ss e s' Hrel Est) as [R1 _].
+  destruct (step_sim c rid true Hk Ho Ha Hao s ss e s' Hrel Est) as [R1 _].
   rewrite L2. f_equal. eapply IH; eauto.
 Qed.
 
@@ -982,10 +1001,10 @@ Definition in_order_statement (c : cfg) : Prop :=
   stream_part (run c sinit (ESend (CReq rid) :: evs)) = stream_due rid late_init evs.
 
 Lemma in_order_full : forall c,
-  c_keep_id c = true -> c_other_terminal c = true -> c_drop_late c = true -> c_route_in_stream c = true ->
+  c_keep_id c = true -> c_other_terminal c = true -> c_drop_late c = true -> c_route_in_stream c = true -> c_answers_only c = true ->
   in_order_statement c.
 Proof.
-  intros c Hk Ho Hd Hb rid evs H. unfold sched_ok_late in H.
+  intros c Hk Ho Hd Hb Hao rid evs H. unfold sched_ok_late in H.
   destruct (late_run rid late_init evs) as [s_end|] eqn:E; try discriminate.
   unfold sinit. destruct (first_step c rid [] evs) as [R _]. rewrite R.
   eapply due_gen; eauto.
@@ -1004,29 +1023,29 @@ Proof.
   cbn [stream_due stream_msgs]. rewrite (late_step_g_weaken _ _ _ _ E).
   destruct e as [| | | |[m|]]; simpl; try (eapply IH; eauto).
   unfold late_step_g in E. cbn [fst] in E.
-  destruct (same_key rid m && is_done ph) eqn:Ed; [simpl in E; discriminate|].
+  destruct (answer_key rid m && is_done ph) eqn:Ed; [simpl in E; discriminate|].
   simpl. f_equal. eapply IH; eauto.
 Qed.
 
 Lemma in_order_strict : forall c rid evs,
-  c_keep_id c = true -> c_other_terminal c = true -> c_drop_late c = true -> c_route_in_stream c = true ->
+  c_keep_id c = true -> c_other_terminal c = true -> c_drop_late c = true -> c_route_in_stream c = true -> c_answers_only c = true ->
   sched_ok rid evs = true ->
   stream_part (run c sinit (ESend (CReq rid) :: evs)) = stream_msgs evs.
 Proof.
-  intros c rid evs Hk Ho Hd Hb H.
-  rewrite (in_order_full c Hk Ho Hd Hb rid evs (sched_ok_is_late _ _ H)).
+  intros c rid evs Hk Ho Hd Hb Hao H.
+  rewrite (in_order_full c Hk Ho Hd Hb Hao rid evs (sched_ok_is_late _ _ H)).
   unfold sched_ok in H. destruct (phase_run rid PhPosted evs) as [[]|] eqn:E; try discriminate.
   destruct (strict_embeds rid evs PhPosted false eq_refl E) as [a' Ha'].
   eapply stream_due_strict; eauto.
 Qed.
 
 Lemma in_order_full_both : forall c,
-  c_keep_id c = true -> c_other_terminal c = true -> c_drop_late c = true -> c_route_in_stream c = true ->
+  c_keep_id c = true -> c_other_terminal c = true -> c_drop_late c = true -> c_route_in_stream c = true -> c_answers_only c = true ->
   (forall rid evs, sched_ok_late rid evs = true ->
      stream_part (run c sinit (ESend (CReq rid) :: evs)) = stream_due rid late_init evs) /\
   (forall rid evs, sched_ok rid evs = true ->
      stream_part (run c sinit (ESend (CReq rid) :: evs)) = stream_msgs evs).
-Proof. intros c Hk Ho Hd Hb. split. exact (in_order_full c Hk Ho Hd Hb). intros; apply in_order_strict; auto. Qed.
+Proof. intros c Hk Ho Hd Hb Hao. split. exact (in_order_full c Hk Ho Hd Hb Hao). intros; apply in_order_strict; auto. Qed.
 
 (* ------------------------------------------------------------------ *)
 (** * (d) resources                                                    *)
@@ -1120,6 +1139,12 @@ Proof.
   { unfold not_pending, late_hit. cbn [s_late].
     destruct (m_kind m); try discriminate; cbn [kind_terminal]; now rewrite andb_false_r. }
   destruct task; try rewrite R; exact N.
+Qed.
+
+(** ... and such a message is unrelated traffic of the property's environment, whatever id it bears *)
+Lemma server_call_is_noise : forall rid m, kind_call (m_kind m) = true -> noise rid [ESse (Some m)].
+Proof.
+  intros rid m Hk e [<-|[]]. unfold answer_key. rewrite Hk. apply andb_false_r.
 Qed.
 
 (* ------------------------------------------------------------------ *)
